@@ -47,6 +47,9 @@ func (t tok) String() string {
 	case tWord:
 		return strings.Repeat("x", t.n)
 	case tSpace:
+		if strings.Contains(t.html, "<") {
+			return "_~" // followed by inline elements emptied by white-space collapsing
+		}
 		return "_"
 	case tBr:
 		return "/"
@@ -166,6 +169,30 @@ func (p para) spaceBeforeBr() bool {
 	return false
 }
 
+// white space removed by collapsing, wrapped in extra (then empty) inline elements, follows a space
+func (p para) hasDeco() bool {
+	for _, t := range p.toks {
+		if t.k == tSpace && strings.Contains(t.html, "<") {
+			return true
+		}
+	}
+	return false
+}
+
+// ... and that at the very start of the paragraph
+func (p para) leadingDeco() bool {
+	for _, t := range p.toks {
+		switch t.k {
+		case tSpace:
+			return strings.Contains(t.html, "<")
+		case tOpen:
+		default:
+			return false
+		}
+	}
+	return false
+}
+
 func (p para) hasBr() bool {
 	for _, t := range p.toks {
 		if t.k == tBr {
@@ -214,6 +241,7 @@ type genOpts struct {
 	edgeSpaces        bool // a space may directly follow a start edge / precede an end edge (defect domain KF11-5)
 	atomsInSpans      bool // atomic inlines may sit inside spans (defect domain KF11-6)
 	va                bool // vertical-align on spans and inline-blocks (judge-only stages)
+	collapseDeco      bool // white space that collapsing removes, inside extra inline elements after a space: `a <i> </i>b`
 	spBr              bool // a space may directly precede <br> (defect domain KF11-1)
 	maxLeaves         int
 	maxWord           int
@@ -259,7 +287,14 @@ func (g *gen) content(n int) {
 			// edge: `<p><span style="margin-left:7px"> x` -- not generated, reported separately)
 			afterOpen := len(g.toks) > 0 && g.toks[len(g.toks)-1].k == tOpen
 			if !g.lastSpace && !(g.noLeaf && g.openSinceBreak) && (g.o.edgeSpaces || !afterOpen) {
-				g.toks = append(g.toks, tok{k: tSpace, html: rng.Pick(g.r, spaceTexts...)})
+				h := rng.Pick(g.r, spaceTexts...)
+				if g.o.collapseDeco && g.r.P(1, 2) {
+					// the space survives; what follows is collapsible white space that collapsing removes,
+					// leaving empty inline elements (no token: they have no width and no content)
+					h += rng.Pick(g.r, `<i> </i>`, `<i>  </i>`, `<u><i> </i></u>`, `<i> </i> `, `<i>
+</i>`, `<i> </i><u> </u>`, ` <u>	</u>`)
+				}
+				g.toks = append(g.toks, tok{k: tSpace, html: h})
 				g.lastSpace = true
 			}
 		case c < 78:
